@@ -322,6 +322,20 @@ def gen(ctx, model):
     return cases
 
 
+DEC_INPLACE = ("gcmdecs!", "hmdec!", "gcmdec!", "ccmdec!", "aesdec!")
+
+
+def observe(line, impl_out, spec_out):
+    """C04 claims only ENCRYPTING in place; decrypt-direction aliasing disagreements are observations.
+    For the round-trip ops the encrypt half (ciphertext and tag) must still agree."""
+    op = line.split(" ", 1)[0]
+    if op in DEC_INPLACE:
+        return True
+    if op in ("gcmrt!", "ccmrt!"):
+        return impl_out.split(" ")[:2] == spec_out.split(" ")[:2]
+    return False
+
+
 def run(ctx):
     ctx.check_proofs()
     model, log = core.build_model("C04b")
@@ -334,7 +348,7 @@ def run(ctx):
         if exe is None:
             core.harness_build_failed(ctx, log)
             continue
-        devdiff.differential(ctx, cases, exe, model, variant=v)
+        devdiff.differential(ctx, cases, exe, model, variant=v, observe=observe)
     return finish(ctx)
 
 
@@ -347,5 +361,6 @@ def finish(ctx):
     ]
     return ctx.finish(level="proof",
                       rule="cases = boundary families (block/partial lengths 0..64, GCM IV 1..64 x tag 12..16, CCM nonce 7..13 x tag 4..16 x AAD {0,1,13,14,15,16,30,65279,65280}, window branches fill/slide/bulk of the streaming decryptors, counter wrap, bit lengths around 32 for EEA3/EIA3, argument-check failures) + random chunkings + corrupted streams; a cell = (op, variant, boundary class, ok|ERR); distinct_nontrivial = cells on which implementation and Spec agreed",
+                      extra={"observations": getattr(ctx, "observations", [])},
                       trusted=core.TRUSTED_COMMON + ["vlib/devdiff.py (comparison against `spec ## impl-model` lines)",
                                                      "Coq files: Cipher/GF128.v GCM.v CCM.v AES.v ZUC.v ChaCha.v Aead.v (models), *Proofs.v, Props/Properties_C04b.v"])
